@@ -11,7 +11,7 @@ use serde_json::Value;
 use std::borrow::Cow;
 use std::cell::Cell;
 use std::collections::{BTreeMap, HashMap};
-use std::sync::atomic::{AtomicU64, AtomicUsize, Ordering::SeqCst};
+use std::sync::atomic::{AtomicBool, AtomicU64, AtomicUsize, Ordering::SeqCst};
 use std::sync::{Arc, Mutex};
 
 pub struct L1 {
@@ -23,6 +23,29 @@ pub struct SV {
     key: String,
 }
 impl Storable for SV {}
+
+/// While armed, every dropped L1 / SV panics in its destructor. It is armed only during the racing phase,
+/// in which nothing is removed: the only values dropped then are the ones that lose an insertion race.
+static GRUMPY: AtomicBool = AtomicBool::new(false);
+thread_local! {
+    static GRUMPY_FIRED: Cell<bool> = const { Cell::new(false) };
+}
+fn grumpy_drop() {
+    if GRUMPY.load(SeqCst) && !std::thread::panicking() {
+        GRUMPY_FIRED.with(|f| f.set(true));
+        panic!("destructor of a value that lost the insertion race panics");
+    }
+}
+impl Drop for L1 {
+    fn drop(&mut self) {
+        grumpy_drop();
+    }
+}
+impl Drop for SV {
+    fn drop(&mut self) {
+        grumpy_drop();
+    }
+}
 
 struct Gate {
     expected: HashMap<String, usize>,
@@ -96,6 +119,9 @@ pub struct Case {
     cpus: u8,
     local: bool,
     hot: bool,
+    /// values that lose an insertion race panic in their destructor
+    #[serde(default)]
+    grumpy: bool,
 }
 
 #[derive(Debug, Clone)]
@@ -108,10 +134,18 @@ struct Rec {
     /// Some((pointer, token, key read through the handle)) for a returned handle
     handle: Option<(usize, u64, String)>,
     present: bool,
+    /// the call unwound (only legitimate when the destructor of this thread's own losing value panicked)
+    panicked: bool,
 }
 
+/// Keys 2..4 have empty components: ids are keys verbatim, each has its own file in the source.
 fn key_name(k: u8) -> String {
-    format!("k{k}")
+    match k {
+        2 => "k0.".to_string(),
+        3 => ".k0".to_string(),
+        4 => "k0..k1".to_string(),
+        _ => format!("k{k}"),
+    }
 }
 
 fn run_op(cache: &AssetCache<MemSource>, op: Op, ticket: &AtomicU64, thread: usize, idx: usize) -> Rec {
@@ -180,7 +214,7 @@ fn run_op(cache: &AssetCache<MemSource>, op: Op, ticket: &AtomicU64, thread: usi
         (Kind::Contains, true, true) => present = any.contains::<SV>(&id),
     }
     let end = ticket.fetch_add(1, SeqCst);
-    Rec { thread, idx, op, start, end, handle, present }
+    Rec { thread, idx, op, start, end, handle, present, panicked: false }
 }
 
 fn run_op_local(cache: &LocalAssetCache<MemSource>, op: Op, ticket: &AtomicU64, idx: usize) -> Rec {
@@ -249,7 +283,7 @@ fn run_op_local(cache: &LocalAssetCache<MemSource>, op: Op, ticket: &AtomicU64, 
         (Kind::Contains, true, true) => present = any.contains::<SV>(&id),
     }
     let end = ticket.fetch_add(1, SeqCst);
-    Rec { thread: 0, idx, op, start, end, handle, present }
+    Rec { thread: 0, idx, op, start, end, handle, present, panicked: false }
 }
 
 fn make_source(keys: u8, hot: bool) -> MemSource {
@@ -268,7 +302,7 @@ fn check_log(out: &mut Outcome, log: &[Rec], canonical: &BTreeMap<(bool, u8), Op
     let mut losers = 0;
     let created = CREATED.lock().unwrap().clone();
     for (&(storable, key), canon) in canonical {
-        let recs: Vec<&Rec> = log.iter().filter(|r| r.op.storable_key() == (storable, key)).collect();
+        let recs: Vec<&Rec> = log.iter().filter(|r| r.op.storable_key() == (storable, key) && !r.panicked).collect();
         // (1) pointer identity and (3) one winning value
         let mut seen: Option<(usize, u64)> = canon.as_ref().map(|c| (c.0, c.1));
         for r in &recs {
@@ -371,28 +405,46 @@ fn run_shared(c: &Case, out: &mut Outcome) {
     *GATE.lock().unwrap() = Some(gate.clone());
     let barrier = super::common::SpinBarrier::new(c.threads.len() + 1);
     let mut log: Vec<Rec> = Vec::new();
+    let innocent: Mutex<Vec<String>> = Mutex::new(Vec::new());
     let concurrent_fill = (c.filler / 2).min(20_000);
+    GRUMPY.store(c.grumpy, SeqCst);
     std::thread::scope(|s| {
         let mut joins = Vec::new();
         for (t, prog) in c.threads.iter().enumerate() {
-            let (cache, ticket, barrier) = (&cache, &ticket, &barrier);
+            let (cache, ticket, barrier, innocent) = (&cache, &ticket, &barrier, &innocent);
             joins.push(s.spawn(move || {
                 let mut recs = Vec::new();
                 barrier.wait();
                 for (i, op) in prog.iter().enumerate() {
                     FIRST_OP.with(|f| f.set(i == 0));
-                    recs.push(run_op(cache, *op, ticket, t, i));
+                    GRUMPY_FIRED.with(|f| f.set(false));
+                    match std::panic::catch_unwind(std::panic::AssertUnwindSafe(|| run_op(cache, *op, ticket, t, i))) {
+                        Ok(r) => recs.push(r),
+                        Err(_) => {
+                            let own = GRUMPY_FIRED.with(|f| f.get());
+                            let end = ticket.fetch_add(1, SeqCst);
+                            recs.push(Rec { thread: t, idx: i, op: *op, start: end, end, handle: None, present: false, panicked: true });
+                            if !own {
+                                innocent.lock().unwrap().push(format!("thread {t} op {i} {op:?}"));
+                            }
+                        }
+                    }
                 }
                 FIRST_OP.with(|f| f.set(false));
                 recs
             }));
         }
         let filler = {
-            let (cache, barrier) = (&cache, &barrier);
+            let (cache, barrier, innocent) = (&cache, &barrier, &innocent);
             s.spawn(move || {
                 barrier.wait();
-                for i in 0..concurrent_fill {
-                    cache.get_or_insert::<u64>(&format!("fill{i}"), i as u64);
+                let r = std::panic::catch_unwind(std::panic::AssertUnwindSafe(|| {
+                    for i in 0..concurrent_fill {
+                        cache.get_or_insert::<u64>(&format!("fill{i}"), i as u64);
+                    }
+                }));
+                if r.is_err() {
+                    innocent.lock().unwrap().push("the thread inserting unrelated entries".to_string());
                 }
             })
         };
@@ -402,6 +454,14 @@ fn run_shared(c: &Case, out: &mut Outcome) {
         filler.join().expect("filler");
     });
     *GATE.lock().unwrap() = None;
+    GRUMPY.store(false, SeqCst);
+    if let Some(first) = innocent.lock().unwrap().first() {
+        out.fail("innocent-racer-panicked", format!("{first} panicked although no value of its own was dropped (another racer's losing value panicked in its destructor; every other racer must still observe the winner)"));
+        return;
+    }
+    if log.iter().any(|r| r.panicked) {
+        out.label("loser-destructor-panicked");
+    }
 
     let canon_now = |cache: &AssetCache<MemSource>| -> BTreeMap<(bool, u8), Option<(usize, u64, String)>> {
         let mut m = BTreeMap::new();
@@ -535,9 +595,10 @@ impl Prop for C01 {
     }
 
     fn rule(&self) -> String {
-        "cases = (2..8 thread programs of load / get_cached / get_or_insert / contains on 1..5 overlapping keys of an asset type and a storable type, through AssetCache or its AnyCache view; \
+        "cases = (2..8 thread programs of load / get_cached / get_or_insert / contains on 1..6 overlapping keys of an asset type and a storable type, through AssetCache or its AnyCache view; \
          optional gate: loaders that passed the cache miss wait (bounded) for each other inside the harness loader, forcing simultaneous misses; 0..20000 (thorough: up to 300000) unrelated insertions \
-         concurrently and afterwards; shard count via CPU affinity 1/2/4/16 at construction; with or without a reloader; a single-threaded LocalAssetCache variant). \
+         concurrently and afterwards; shard count via CPU affinity 1/2/3/4/5/6/7/12/16 at construction; with or without a reloader; keys include ids with empty components (k0., .k0, k0..k1), each with its own file; \
+         in a quarter of the cases every value that loses a race panics in its destructor (the unwinding call is the loser's own, every other call must be unaffected); a single-threaded LocalAssetCache variant). \
          Oracle over the joined logs: one pointer and one value per key, presence monotone along a ticket-based happens-before order, ledger: exactly the winner alive and every loser dropped once, \
          retained handles still identical and readable after growth. non-trivial = >= 2 loaders provably inside the miss window of one key, or >= 1 value that lost an insertion race, or (local variant) >= 1000 growth insertions; distinct = different canonical JSON"
             .into()
@@ -562,19 +623,20 @@ impl Prop for C01 {
 
     fn strategy(&self, tier: Tier) -> BoxedStrategy<Value> {
         let big = if tier == Tier::Thorough { 300_000u32 } else { 20_000 };
-        (1u8..6)
+        (1u8..7)
             .prop_flat_map(move |keys| {
                 (
                     prop::collection::vec(prop::collection::vec(op_strategy(keys), 1..8), 2..8),
                     Just(keys),
                     prop::bool::weighted(0.7),
                     prop_oneof![3 => 0u32..200, 2 => 200u32..5000, 1 => 5000u32..big],
-                    prop_oneof![Just(1u8), Just(2), Just(4), Just(16)],
+                    prop_oneof![Just(1u8), Just(2), Just(4), Just(16), Just(3), Just(5), Just(6), Just(7), Just(12)],
                     prop::bool::weighted(0.12),
                     any::<bool>(),
+                    prop::bool::weighted(0.25),
                 )
             })
-            .prop_map(|(mut threads, keys, gate, filler, cpus, local, hot)| {
+            .prop_map(|(mut threads, keys, gate, filler, cpus, local, hot, grumpy)| {
                 if gate {
                     // make the first op of most threads a load of one hot key
                     let hot_key = threads[0][0].key;
@@ -585,7 +647,7 @@ impl Prop for C01 {
                         }
                     }
                 }
-                to_case(&Case { threads, keys, gate, filler, cpus, local, hot })
+                to_case(&Case { threads, keys, gate, filler, cpus, local, hot, grumpy: grumpy && !local })
             })
             .boxed()
     }
@@ -598,6 +660,14 @@ impl Prop for C01 {
         CREATED.lock().unwrap().clear();
         if c.local {
             run_local(&c, &mut out);
+        } else if c.grumpy {
+            // the destructor panics are caught where they are legitimate; whatever else unwinds is a call that no value of its own made panic
+            let r = std::panic::catch_unwind(std::panic::AssertUnwindSafe(|| run_shared(&c, &mut out)));
+            GRUMPY.store(false, SeqCst);
+            if let Err(p) = r {
+                let msg = p.downcast_ref::<String>().cloned().or_else(|| p.downcast_ref::<&str>().map(|s| s.to_string())).unwrap_or_default();
+                out.fail("innocent-racer-panicked", format!("a cache call of the main thread (look-ups after the racing phase, growth, drop) panicked: {msg}; only the call whose own losing value panicked in its destructor may unwind"));
+            }
         } else {
             run_shared(&c, &mut out);
         }
@@ -609,6 +679,6 @@ impl Prop for C01 {
     }
 
     fn required_labels(&self) -> Vec<&'static str> {
-        vec!["simultaneous-miss", "lost-race", "local-cache", "growth>=5000"]
+        vec!["simultaneous-miss", "lost-race", "local-cache", "growth>=5000", "loser-destructor-panicked"]
     }
 }
